@@ -226,7 +226,9 @@ def run(ck):
     ck.cov["generated_facts"] = ["Gen_C04: constants %s; %d kinds; %d can hold values; marker arms par %d / seq %d; root sets %s; queue cleared %s; recycler restores marks %s"
                                  % ({k: facts[k] for k in ("reset_limit", "extend_chunk", "init_slots", "full_pct")}, len(facts["kinds"]),
                                     len(facts["can_contain"]), len(facts["marker_par"]), len(facts["marker_seq"]), facts["marked_root_sets"],
-                                    facts["mark_queue_cleared"], facts["recycler_restores_marks"])]
+                                    facts["mark_queue_cleared"], facts["recycler_restores_marks"]) +
+                                 "; marker queue: capacity %d, spill enqueues %s, local enqueues %s, drains both %s, roots enqueued %s"
+                                 % (facts["pq_local_capacity"], facts["pq_spill_enqueues"], facts["pq_local_enqueues"], facts["pq_drain_both"], facts["pq_roots_enqueued"])]
     proved = ck.proof_stage(["c04", "gen"], ["c04/Properties_C04"], "c04/Pins_C04.v")
     ck.harness_build(["evalsrv"])
     stats = {"scripts": 0, "agree": 0, "disagree": 0, "counts_skipped": 0, "hidden_alloc_scripts": 0, "holders": {}, "allocs_engine": 0, "recycle_runs": 0}
@@ -247,13 +249,19 @@ def run(ck):
         scripts = scripts + [H.gen_script(ck.rng, nsteps) for _ in range(nscripts)]
         check_batch(ck, scripts, env, "chunk=%(chunk)d every=%(every)d jit=%(jit)s" % env, stats)
     run_recycle(ck, stats)
+    # wide containers: more pending children than the marker's local queue holds (generated capacity)
+    queue_ok = all(facts[k] for k in ("pq_spill_enqueues", "pq_local_enqueues", "pq_drain_both", "pq_roots_enqueued"))
+    picks = [("mvec", 0, facts["pq_local_capacity"] + 904, {})] + H.wide_picks(ck.rng, ck.tier, force_all=not queue_ok)
+    H.run_wide(ck, picks, stats)
     if not quick:
         # default geometry (25600-slot chunks) with sparse forced collections
         env = {"chunk": 0, "every": 997, "jit": True}
-    ck.cov["distinct_nontrivial"] = sum(1 for v in stats["holders"].values() if v >= 1)
+    ck.cov["distinct_nontrivial"] = sum(1 for v in stats["holders"].values() if v >= 1) + len(stats.get("wide", {}))
     ck.cov["rule"] = ("steps observed (statistics + printed contents of every reachable cell) after each operation of generated heap scripts; "
                       "distinct = distinct operation / holder kinds exercised at least once among %s + %s (every one involves allocation under forced "
-                      "collection, hence non-trivial)" % (["alloc_box", "alloc_vec", "store", "set", "collect", "churn", "cyc"], H.HOLDERS))
+                      "collection, hence non-trivial) + distinct (wide family, element kind) pairs: containers of 5000-12000 boxes / mutable vectors / counter closures, "
+                      "i.e. more pending children than the marker's local queue (capacity %d) holds, collected, churned and read back element by element"
+                      % (["alloc_box", "alloc_vec", "store", "set", "collect", "churn", "cyc"], H.HOLDERS, facts["pq_local_capacity"]))
     ck.cov["stats"] = stats
     if not proved:
         if not ck.violations:
@@ -270,6 +278,10 @@ def replay(ck, path):
     stats = {"scripts": 0, "agree": 0, "disagree": 0, "counts_skipped": 0, "hidden_alloc_scripts": 0, "holders": {}, "allocs_engine": 0, "recycle_runs": 0}
     if case.get("kind") == "recycle-tls":
         run_recycle(ck, stats)
+        return
+    if case.get("kind") == "wide":
+        H.run_wide(ck, [(case["family"], case["elem_kind"], case["n"], case["env"])], stats)
+        print(json.dumps(stats))
         return
 
     def tup(x):
